@@ -75,7 +75,12 @@ def strictly_inside(p, poly, margin):
 
 def gen_cases(rng, tier):
     cs = []
+    # rotation windows that are not a whole number of steps, on axis-aligned rectangles: the LAST tried rotation (0 deg) is the densest
+    for (st, sp, stp) in ([(-30.0, 5.0, 10.0), (-45.0, 2.5, 15.0)] if tier == "quick" else [(-30.0, 5.0, 10.0), (-45.0, 2.5, 15.0), (-20.0, 1.0, 5.0), (-60.0, 7.0, 7.5), (-14.0, 0.5, 2.0)]):
+        W, Hh = rng.choice([(100.0, 60.0), (80.0, 50.0), (60.0, 60.0)])
+        cs.append({"mode": "optimize", "poly": [[0.0, 0.0], [W, 0.0], [W, Hh], [0.0, Hh]], "spacing": 10.0, "rot_step": stp, "rot_start": st, "rot_stop": sp, "timeout": 60})
     n = 24 if tier == "quick" else 160
+    n += len(cs)
     while len(cs) < n:
         nv = rng.randint(3, 12)
         r = rng.uniform(40, 90)
@@ -216,7 +221,7 @@ def run(chk):
     # sweep: the optimiser returns the field of the first rotation with the most boreholes
     sw = []
     plain = [k for k, c in enumerate(cases) if c.get("perimeter") is None]
-    plain = plain[: (5 if quick else 30)]
+    plain = plain[: (7 if quick else 35)]
     for k in plain:
         sw.append(dict(cases[k], mode="sweep_counts"))
     with ThreadPoolExecutor(max_workers=NPROC) as ex:
